@@ -101,6 +101,9 @@ let run_query ix = function
       (match M.get_all_posts ix (nl ts) with
        | M.AOk enc -> L [A "ok"; A (match M.choose_strategy enc with M.L2R -> "l2r" | M.R2L -> "r2l")]
        | _ -> L [A "ok"; A "na"])
+  | L [A "score"; ts; idf; k1; b] -> of_api (of_list of_z) (M.score_bm25 ix (nl ts) (to_z idf) (to_z k1) (to_z b))
+  | L [A "args"; ts] ->
+      of_api (fun ((((tfs, dfs), dls), total), n) -> L [of_nl tfs; of_nl dfs; of_nl dls; of_n total; of_n n]) (M.score_args ix (nl ts))
   | L [A "lens"] -> L [A "ok"; of_nl (M.doclengths ix)]
   | L [A "n"] -> L [A "ok"; of_n (M.corpus_size ix)]
   | L [A "total"] -> L [A "ok"; of_n (M.total_len ix)]
@@ -121,6 +124,12 @@ let () =
        | other -> of_api (fun _ -> A "x") other)
     | _ -> raise (Parse_error "args"));
   register "spec_index_query" (function [docs; L qs] -> L [A "ok"; L (List.map (spec_query (to_docs docs)) qs)]
+    | _ -> raise (Parse_error "args"))
+
+
+let () =
+  register "bm25_kernel" (function [tf; dl; avg; idf; k1; b] ->
+      of_list of_z (M.kernel_bits (to_list to_z tf) (to_list to_z dl) (to_z avg) (to_z idf) (to_z k1) (to_z b))
     | _ -> raise (Parse_error "args"))
 
 let () = main ()
